@@ -792,6 +792,18 @@ theorem C02_next_is_source {σ : Type} (ops : Ops σ) :
   ⟨Pandora.Bridge.C02Src.next_prologue_is_source, Pandora.Bridge.C02Src.nextReader_is_source ops,
    Pandora.Bridge.C02Src.nextWriter_is_source ops⟩
 
+/-- **The writer section of `Left`, `startNext` and `Start` of the model are those of the source**: from `Lock` on,
+`compositeSchedule.Left` is `leftWriter` (re-check of who shifted, the panic if the head still had a token, `startNext`
+with the head's finish time, the retry); `startNext` drops the heads of `scheds` and `leftAfter` and then starts the new
+head with the time it was given; `Start` sets the started flag and starts the head under the write lock. With
+`C02_next_is_source`, `C02_left_is_source` and `C02_newComposite_is_source` every statement of composite.go is regenerated. -/
+theorem C02_left_writer_is_source {σ : Type} (ops : Ops σ) :
+    (∀ (s : Sh σ) (seen : Nat) (now : Int),
+      Pandora.Gen.C02Src.compositeSchedule_Left_writer ops s seen now = leftWriter ops s seen now) ∧
+    (∀ (s : Sh σ) (t : Int), s.la ≠ [] → Pandora.Gen.C02Src.compositeSchedule_startNext ops s t = startNext ops s t) ∧
+    Pandora.Gen.C02Src.compositeSchedule_Start = ["defer s.rwMu.Unlock()", "s.rwMu.Lock()", "s.scheds[0].Start(t)", "s.started.Store(true)"] :=
+  ⟨Pandora.Bridge.C02Src.leftWriter_is_source ops, Pandora.Bridge.C02Src.startNext_is_source ops, Pandora.Bridge.C02Src.start_is_source⟩
+
 /-- **Inside a leaf, any interleaving.**  A leaf — ANY object that refines the flat spec: the `doAt` leaf, the
 unlimited leaf, the run leaf — whose `Next` is the once (`startOnce.Do`: start at the clock reading if not started)
 followed by ONE atomic operation and whose `Left` is one atomic operation is linearizable to the atomic flat spec: for
